@@ -291,7 +291,7 @@ def drive(prop: str, tier: str, seed: int, replay: str | None = None) -> int:
             print(f'VIOLATION property={prop} replay={path}')
         return 1
     if problems or gates_failed or merged['evaluations'] == 0:
-        uniq = list(dict.fromkeys(p.split(': ', 1)[-1][-400:] if p.startswith('shard') else p for p in problems))
+        uniq = list(dict.fromkeys(p.split(': ', 1)[-1][-int(os.environ.get('BEANMON_PROBLEM_CHARS', '400')):] if p.startswith('shard') else p for p in problems))
         reason = '; '.join(uniq[:3] + gates_failed) or 'zero oracle evaluations'
         print(f'INCONCLUSIVE property={prop} reason={common.short(reason, 3000)}')
         return 2
